@@ -240,7 +240,7 @@ pub fn run(ctx: &mut LaneCtx) {
     ctx.run_sub(
         SubSpec {
             name: "live-filter",
-            cases: (720, 20_000),
+            cases: (960, 20_000),
             rule: "1..24 threads on custom stacks with planted words (pointer into the principal mapping / another mapping / one past its end / own stack / small ints, at aligned slots above sp, below sp, or unaligned), spinners running inside an executable mapping, principal address inside a mapping or in a hole, crash context on a chosen thread with rip inside/outside; oracle = stack present iff rip inside or aligned word at/above sp points into the mapping, records+contexts always present, soft error as stated; non-trivial = at least one included and one excluded stack in the same dump; distinct = hash of case",
             strategy: crate::props::planted::case_strategy(None, Some(true), Some(false))
                 .prop_map(|mut c| {
